@@ -29,6 +29,14 @@ CHECKS = {
    text="BinSearch.tla transcribes the datetime binary search (fo_a/fo_b/try_fo loop, early return, Done branch, final same-offset disambiguation) and the stage-3 window walk; TLC checks for every chronological file (ties, multi-line messages) and every filter placement that the search terminates and returns FirstAtOrAfter(A) and that the walk emits exactly {m : A <= t <= B}. The real search's Probe events are validated against the transcription (TraceBinSearch.tla); generated files with tie groups and sub-second instants are run with windows before/between/exactly on/after instants and A = B at many block sizes, plain (binary search) and streamed (linear), in-process and through -a/-b, against the declarative Select.",
    note="Text sources chronological; messages >= 2 bytes; find_sysline answers 'containing message' (measured; the search is not robust to the other answer, see BinSearch.tla). Record files, evtx and journals get their windows in C08/C10/C09.",
    technique="TLA+ transcription checked by TLC against a declarative oracle + probe-trace validation + windowed replay"),
+ "C08": dict(engine="Ordered", category="model_checking", design_ref="DESIGN.md §6 C08",
+   text="Ordered.tla states the emission of a record file declaratively (non-null records inside the window, sorted by (time, file offset)) and as the code-shaped machine (BTreeMap built in file order, walked and emptied in key order) with the map key as a design parameter measured on the real reader; TLC checks machine = declaration for every record sequence (duplicates, nulls, any order) and every window, and every one of those instances is rendered as a real Linux utmp file with distinctive fields per record, stored plain/gz/bz2/xz/lz4/tar, and run through the binary at a drawn block size; stdout is parsed back to records (count, order, own fields only, no stray bytes).",
+   note="Linux x86_64 struct utmp synthesised from the C layout; other platform layouts only via the repository's sample files (C05/C07). Known finding nul-after-record.",
+   technique="TLA+ model checking (TLC) + exhaustive instance replay on the real binary"),
+ "C10": dict(engine="Ordered", category="model_checking", design_ref="DESIGN.md §6 C10",
+   text="Ordered.tla (Evtx machine: insert under (time, index), pop first) is checked by TLC against the declarative sort for all small multisets with ties and all windows; on the code the printed EventRecordID sequence must equal the sort of an independent dump (evtx crate) for no window and for windows exactly on / 1 microsecond around actual record times, for the plain file and its compressed forms; Print traces are validated against TraceS4Run.tla.",
+   note="One non-empty .evtx file exists offline (227 records, one inversion, no ties): ties are decided by the model only.",
+   technique="TLA+ model checking (TLC) + differential replay against an independent dump + trace validation"),
 }
 NA_REASON = "check not built yet in this session (work in progress; will be claimed when its machinery exists)"
 
@@ -57,6 +65,8 @@ manifest = {
            "add_only": True},
  "engines": [
    {"name": "TextLog", "path": "spec/TextLog.tla", "serves_properties": ["C02", "C12", "C03", "C17", "C11"], "kind_free_text": "TLA+ specification of lines/messages/reader API; BlockZero.tla transcribes the block-zero acceptance"},
+   {"name": "Ordered", "path": "spec/Ordered.tla", "serves_properties": ["C08", "C09", "C10", "C03"], "kind_free_text": "collect / window / key-ordered emission for record files, evtx, journal"},
+   {"name": "BinSearch", "path": "spec/BinSearch.tla", "serves_properties": ["C03"], "kind_free_text": "transcription of the datetime binary search + window walk; TraceBinSearch.tla validates Probe traces"},
    {"name": "S4Run", "path": "spec/S4Run.tla", "serves_properties": ["C01", "C06", "C07", "C18", "C19"], "kind_free_text": "TLA+ specification of workers/channels/coordinator/signal handler/temp files; TraceS4Run.tla validates hook traces; SimS4Run.tla emits behaviours for replay"},
  ],
  "checks": checks,
